@@ -45,7 +45,9 @@ def main():
     before = common.git_status()
     try:
         if a.replay:
-            rc = mod.replay(*extra, a.replay) if hasattr(mod, "replay") else mod.main(*extra, a.tier)
+            from . import replay
+
+            rc = replay.main(pid, a.replay, modname, extra)
         else:
             rc = mod.main(*extra, a.tier)
     finally:
